@@ -266,6 +266,37 @@ func runPath(cfg *config, path []uint16) (uint64, explore.Status) {
 	return explore.Hash(w.vx.VerifState(), fmt.Sprintf("%+v", snap), w.m.Dump()), explore.StOK
 }
 
+// paletteSweep: every palette index as foreground, background and underline colour, 16 per frame
+// (each index class has its own SGR form: 30-37, 90-97, 38:5:n and the 4x/10x/48/58 twins).
+func paletteSweep() {
+	cfg := &config{Name: "palette", Cols: 16, Rows: 3}
+	w := open(cfg)
+	defer w.close()
+	for base := 0; base < 256; base += 16 {
+		win := w.vx.Window()
+		for i := 0; i < 16; i++ {
+			idx := vaxis.IndexColor(uint8(base + i))
+			cells := []vaxis.Cell{
+				{Character: ch("f", 1), Style: vaxis.Style{Foreground: idx}},
+				{Character: ch("b", 1), Style: vaxis.Style{Background: idx}},
+				{Character: ch("u", 1), Style: vaxis.Style{UnderlineStyle: vaxis.UnderlineSingle, UnderlineColor: idx}},
+			}
+			for row, c := range cells {
+				win.SetCell(i, row, c)
+				w.m.SetCell(i, row, c)
+			}
+		}
+		w.vx.Render()
+		r.Count("palette_frames", 1)
+		snap := w.con.M.VerifSnapshot()
+		if mm := w.m.Compare(emucon.View{S: snap}, w.prof); mm != nil {
+			r.Violation(fmt.Sprintf("C12|emulator|palette|%s|want=%s|shows=%s", mm.Clause, mm.WantKind, mm.GotKind), base,
+				detail{Search: "palette", Screen: "16x3", Frames: []string{fmt.Sprintf("indices %d..%d as fg / bg / underline colour", base, base+15)}, Stage: "emulator", Why: fmt.Sprintf("row %d col %d: %s", mm.Row, mm.Col, mm.Detail)})
+			return
+		}
+	}
+}
+
 func accessorCheck() {
 	cfg := &config{Name: "acc", Cols: 4, Rows: 2}
 	w := open(cfg)
@@ -328,6 +359,7 @@ func main() {
 		r.Watchdog(60 * time.Second)
 		if arg == "accessors" {
 			accessorCheck()
+			paletteSweep()
 			r.WorkerDone()
 		}
 		name := strings.SplitN(arg, ":", 3)[1]
